@@ -309,6 +309,17 @@ func main() {
 	case "build":
 		fmt.Println(build())
 		return
+	case "simtest":
+		// unit tests of the trusted base: scheduler, seams for sync, network and disk
+		cmd := exec.Command("go1.26.8", "test", "-count=1", "./...")
+		cmd.Dir = filepath.Join(verifDir, "sim")
+		cmd.Env = goEnv()
+		out, err := cmd.CombinedOutput()
+		fmt.Print(string(out))
+		if err != nil {
+			os.Exit(2)
+		}
+		return
 	case "replay":
 		if len(os.Args) < 3 {
 			die(2, "usage: check replay <file>")
